@@ -1,6 +1,9 @@
 package dhcp4_spoofer
 
 import (
+	"bytes"
+	"crypto/sha256"
+	"encoding/hex"
 	"fmt"
 	"io/ioutil"
 	"net"
@@ -152,7 +155,24 @@ func (handler *Handler) loadConfig(fname string) (net1 *dhcpSubnet, net2 *dhcpSu
 	return handler.loadByteArray(source)
 }
 
+// leaseFileHeader starts the first line of a lease file: a yaml comment holding the sha256 of the yaml document that follows.
+const leaseFileHeader = "# sha256: "
+
 func (handler *Handler) loadByteArray(source []byte) (net1 *dhcpSubnet, net2 *dhcpSubnet, t map[string]*Lease, err error) {
+	// The file is rewritten in place after each change. A crash in the middle of the rewrite leaves a prefix of the file,
+	// which is still valid yaml with some of the leases missing or cut short. Files written by saveConfig start with
+	// a checksum: a truncated or otherwise damaged file is rejected as a whole. Older files have no checksum and load as before.
+	if bytes.HasPrefix(source, []byte(leaseFileHeader)) {
+		n := bytes.IndexByte(source, '\n')
+		if n < 0 {
+			return nil, nil, nil, fmt.Errorf("lease file truncated")
+		}
+		sum := sha256.Sum256(source[n+1:])
+		if string(source[len(leaseFileHeader):n]) != hex.EncodeToString(sum[:]) {
+			return nil, nil, nil, fmt.Errorf("lease file checksum mismatch")
+		}
+		source = source[n+1:]
+	}
 	table := struct {
 		Net1   *SubnetConfig
 		Net2   *SubnetConfig
@@ -264,6 +284,8 @@ func (h *Handler) saveConfig(fname string) (err error) {
 		return err
 	}
 
+	sum := sha256.Sum256(stream)
+	stream = append([]byte(leaseFileHeader+hex.EncodeToString(sum[:])+"\n"), stream...)
 	err = ioutil.WriteFile(fname, stream, os.ModePerm)
 	if err != nil {
 		fmt.Printf("error cannot write dhcp file: %s error %s", fname, err)
